@@ -7,9 +7,9 @@ import random
 from . import core, session, crash, ts004
 
 
-def build_base(rnd):
+def build_base(rnd, wrap=False):
     blk = rnd.choice([256, 512])
-    ns = rnd.choice([4, 4, 5])
+    ns = 5 if wrap else rnd.choice([4, 4, 5])        # wrap: five slots and three updates, so that the main update's pair is (slot 4, slot 0)
     slot = -(-(session.DRO + rnd.choice([256, 700, 1500])) // blk) * blk
     s = session.Scn(ns, slot, blk)
     ups = []          # (start op index, sz, n, image)
@@ -32,8 +32,10 @@ def build_base(rnd):
     geos = [(sz, n) for sz, n in [(8, 3), (5, 12), (40, 4), (48, 5), (17, 6), (1, 20), (100, 2), (68, 3)] if n * sz <= slot - session.DRO]
     g = lambda: rnd.choice(geos)
     update(*g(), "all", True, ["bl", "markbl int", "bl", "markbl ok"])                 # a confirmed image
-    kind = rnd.choice(["cancel", "reject", "recover", "plain", "abandon", "abandon"])
-    if kind == "abandon":
+    kind = rnd.choice(["cancel", "reject", "recover", "plain", "abandon", "abandon"]) if not wrap else "confirm"
+    if kind == "confirm":
+        update(*g(), "all", True, ["bl", "markbl int", "bl", "markbl ok"])     # a second confirmed image: the next pair is (slot 4, slot 0) on five slots
+    elif kind == "abandon":
         update(*g(), "part", False, ["drop"])                # started over without cancel: its slots stay in progress until remediated
     elif kind == "cancel":
         update(*g(), "part", False, ["drop", "cancel"])
@@ -117,7 +119,7 @@ def run(chk):
     chk.prove()
     rnd = random.Random(chk.seed)
     nbase, limit = (6, 70) if chk.quick() else (60, 400)
-    bases = [build_base(rnd) for _ in range(nbase)]
+    bases = [build_base(rnd) for _ in range(nbase)] + [build_base(rnd, wrap=True) for _ in range(1 if chk.quick() else 8)]
     lines, impl, refouts = session.run(chk, bases, stream="session-torn-ref")
     cases = []
     for b, ro in zip(bases, refouts):
